@@ -828,3 +828,343 @@ fn c07_read_comes_from_one_device() {
     kani::cover!(sel.ext && port & 1 == 0, "extender answers an even port it claims");
     kani::cover!(sel.page && !sel.ext, "read from the paging port floats");
 }
+
+// =============================================================================================
+// C08 — every way of writing screen memory reaches the display copy
+// =============================================================================================
+use crate::utils::screen::verif_hooks::{spec_attr_offset, spec_bitmap_offset};
+use crate::zx::video::screen::verif_hooks as sh;
+
+pub(crate) fn noop_memory_write(_m: &mut ZXMemory, _addr: u16, _value: u8) {}
+
+/// local display bank (0 = bank 5 / 48K screen, 1 = bank 7) of a Spectrum RAM bank, per the C08 statement
+pub(crate) fn spec_display_bank(m: ZXMachine, bank: u8) -> Option<usize> {
+    match (m, bank) {
+        (ZXMachine::Sinclair48K, 0) => Some(0),
+        (ZXMachine::Sinclair128K, 5) => Some(0),
+        (ZXMachine::Sinclair128K, 7) => Some(1),
+        _ => None,
+    }
+}
+
+// @harness
+// @prop C08
+// @tier quick
+// @timeout 900
+// @fn Z80Bus::write (default) -> ZXController::write_internal; ZXMemory::get_page; ZXScreen::update; ZXController::write_7ffd -> ZXScreen::switch_bank
+// @sym machine, paging latch (two symbolic writes), CPU write address (all 65536), data, probe cell (bank, y, column)
+// @assert a CPU write through ANY window reaches the display copy of the bank it lands in (bank 5 at 0x4000, and bank 5 or 7 paged at 0xC000; 48K 0x4000) at the cell given by the statement's offset formula, and no other cell; the bank shown is 7 exactly while bit 3 of the latch is set
+// @bound one write; the RAM array store itself is cut (ZXMemory::write stubbed) because CBMC cannot afford a 128K array store at a symbolic address - RAM content after a write is C06's subject
+// @stub ZXMemory::write -> no-op; ZXScreen::process_clocks -> no-op
+// @replay solver-only
+#[kani::proof]
+#[kani::unwind(10)]
+#[kani::stub(crate::zx::video::screen::ZXScreen::process_clocks, noop_screen_clocks)]
+#[kani::stub(crate::zx::memory::ZXMemory::write, noop_memory_write)]
+fn c08_cpu_write_reaches_display_copy() {
+    let (mut c, latch, _t) = any_controller_at(false, false);
+    let m = c.machine;
+    let want_shown = if m == ZXMachine::Sinclair128K && latch.val & 0x08 != 0 { 1 } else { 0 };
+    kani::assert(sh::active_local_bank(&c.screen) == want_shown, "c08.bank.shadow_screen_iff_latch_bit3");
+    let addr: u16 = kani::any();
+    let d: u8 = kani::any();
+    kani::assume(d != 0);
+    c.write(addr, d, 3);
+    let landed = match latch.page(m, (addr >> 14) as usize) {
+        Page::Ram(b) => spec_display_bank(m, b),
+        Page::Rom(_) => None,
+    };
+    let off = (addr & 0x3FFF) as usize;
+    let (pl, py, pc): (usize, usize, usize) = (kani::any(), kani::any(), kani::any());
+    kani::assume(pl < 2 && py < 192 && pc < 32);
+    let hit_bitmap = landed == Some(pl) && off == spec_bitmap_offset(py, pc);
+    let hit_attr = landed == Some(pl) && off == spec_attr_offset(py, pc);
+    kani::assert(sh::shadow_bitmap(&c.screen, pl, py, pc) == if hit_bitmap { d } else { 0 }, "c08.cpu_write.bitmap_cell");
+    kani::assert(sh::shadow_attr(&c.screen, pl, py >> 3, pc) == if hit_attr { d } else { 0 }, "c08.cpu_write.attribute_cell");
+    kani::cover!(hit_bitmap && pl == 1 && addr >= 0xC000, "bank 7 written through 0xC000");
+    kani::cover!(hit_attr && pl == 0 && addr >= 0xC000, "bank 5 attribute written through 0xC000");
+    kani::cover!(hit_bitmap && addr < 0x8000, "fixed screen window");
+    kani::cover!(landed.is_none() && addr >= 0xC000, "other bank at 0xC000 is not display memory");
+}
+
+// @harness
+// @prop C08
+// @tier quick
+// @timeout 900
+// @fn ZXController::refresh_memory_dependent_devices (loop body: ZXMemory::ram_page_data + ZXScreen::update per byte)
+// @sym machine, one witness byte (value, display bank, cell from a class of 6 offsets incl. first/last bitmap and attribute bytes) placed in RAM as a snapshot/SCR loader does (through ram_page_data_mut), probe cell
+// @assert after the refresh that every snapshot / screen-file load ends with, the display copy of each displayable bank equals RAM: the witness byte shows at its cell and nowhere else
+// @bound the real 16384-iteration loop(s) are executed (unwind 16386) on otherwise zero RAM; witness offsets {0, 0x07FF, 0x17FF, 0x1800, 0x1955, 0x1AFF}
+#[kani::proof]
+#[kani::unwind(16386)]
+fn c08_snapshot_refresh_copies_ram() {
+    let m = crate::emulator::verif_hooks::any_machine();
+    let mut c = mk_controller(m, FbCtx { wx: 0, wy: 0 }, false, false);
+    let d: u8 = kani::any();
+    kani::assume(d != 0);
+    let second: bool = kani::any();
+    kani::assume(!second || m == ZXMachine::Sinclair128K);
+    let bank: u8 = match (m, second) {
+        (ZXMachine::Sinclair48K, _) => 0,
+        (_, false) => 5,
+        (_, true) => 7,
+    };
+    let sel: u8 = kani::any();
+    kani::assume(sel < 6);
+    let off: usize = match sel {
+        0 => 0,
+        1 => 0x07FF,
+        2 => 0x17FF,
+        3 => 0x1800,
+        4 => 0x1955,
+        _ => 0x1AFF,
+    };
+    {
+        let page = c.memory.ram_page_data_mut(bank);
+        match sel {
+            0 => page[0] = d,
+            1 => page[0x07FF] = d,
+            2 => page[0x17FF] = d,
+            3 => page[0x1800] = d,
+            4 => page[0x1955] = d,
+            _ => page[0x1AFF] = d,
+        }
+    }
+    c.refresh_memory_dependent_devices();
+    let local = if second { 1 } else { 0 };
+    let (pl, py, pc): (usize, usize, usize) = (kani::any(), kani::any(), kani::any());
+    kani::assume(pl < 2 && py < 192 && pc < 32);
+    let hit_bitmap = pl == local && off == spec_bitmap_offset(py, pc);
+    let hit_attr = pl == local && off == spec_attr_offset(py, pc);
+    kani::assert(sh::shadow_bitmap(&c.screen, pl, py, pc) == if hit_bitmap { d } else { 0 }, "c08.refresh.bitmap_cell");
+    kani::assert(sh::shadow_attr(&c.screen, pl, py >> 3, pc) == if hit_attr { d } else { 0 }, "c08.refresh.attribute_cell");
+    kani::cover!(hit_attr && second, "bank 7 attribute restored");
+    kani::cover!(hit_bitmap && sel == 2, "last bitmap byte restored");
+}
+
+// =============================================================================================
+// C19 — sample cursor arithmetic at real sample rates (feature sound, no AY)
+// =============================================================================================
+#[cfg(all(feature = "sound", not(feature = "ay")))]
+mod c19 {
+    use super::*;
+    use crate::zx::sound::beeper::verif_hooks as bh;
+    use crate::zx::sound::mixer::verif_hooks as mh;
+
+    fn cursor_body(rate: usize) {
+        let m = crate::emulator::verif_hooks::any_machine();
+        let mut s = crate::emulator::verif_hooks::mk_settings(m);
+        s.sound_sample_rate = rate;
+        let mut c = ZXController::<VHost>::new(&s, FbCtx { wx: 0, wy: 0 });
+        let f = spec_frame_len(m);
+        let spf = rate / 50;
+        kani::assert(mh::spf(&c.mixer) == spf, "c19.cursor.samples_per_frame_is_floor_rate_over_50");
+        let t: usize = kani::any();
+        kani::assume(t < f + 64);
+        c.frame_clocks = t;
+        let pos = mh::pos_for_fraction(&c.mixer, c.frame_pos());
+        // uniform spacing: sample k belongs to frame time k*frame/spf  <=>  pos(t) = floor(spf*t/frame)
+        let exact = if t >= f { spf } else { spf * t / f };
+        kani::assert(pos <= spf, "c19.cursor.never_beyond_frame");
+        kani::assert(pos + 1 >= exact && pos <= exact + 1, "c19.cursor.uniform_spacing_within_one_sample");
+        if t >= f {
+            kani::assert(pos == spf, "c19.cursor.full_frame_at_frame_end");
+        }
+        let step: usize = kani::any();
+        kani::assume(step >= 1 && step <= 16);
+        c.frame_clocks = t + step;
+        let pos2 = mh::pos_for_fraction(&c.mixer, c.frame_pos());
+        kani::assert(pos2 >= pos, "c19.cursor.monotone");
+        kani::assert(pos2 - pos <= 2, "c19.cursor.at_most_two_samples_per_16_tstates");
+        if step <= 8 {
+            kani::assert(pos2 - pos <= 1, "c19.cursor.edge_within_one_sample");
+        }
+        kani::cover!(pos2 == pos + 1 && step == 1, "a sample boundary between two adjacent T-states");
+        kani::cover!(t >= f && pos == spf, "frame end");
+    }
+
+    // @harness
+    // @prop C19
+    // @tier quick
+    // @features sound
+    // @timeout 900
+    // @fn ZXController::write_io (ULA arm) -> ZXBeeper::change_state; ZXController::wait_internal -> ZXController::frame_pos -> ZXMixer::process
+    // @sym machine, frame time, port (even, not claimed by another device), data
+    // @assert an OUT to the ULA port latches speaker = bit 4 and MIC = bit 3 of the data before the next mixer step of that very port cycle, so samples generated from then on carry the new level
+    // @bound one port write
+    // @stub ZXMixer::process -> no-op (its effect is c19_mixer_step); ZXScreen::process_clocks -> no-op
+    // @replay solver-only
+    #[kani::proof]
+    #[kani::unwind(10)]
+    #[kani::stub(crate::zx::video::screen::ZXScreen::process_clocks, noop_screen_clocks)]
+    #[kani::stub(crate::zx::sound::mixer::ZXMixer::process, mh::noop_process)]
+    fn c19_port_write_sets_beeper_level() {
+        let (mut c, _latch, _t) = any_controller_at(false, false);
+        let port: u16 = kani::any();
+        kani::assume(port & 1 == 0 && port & 0xC002 != 0xC000 && port & 0xC002 != 0x8000);
+        let data: u8 = kani::any();
+        let before = bh::levels(&c.mixer.beeper);
+        kani::assert(before == (false, false), "c19.port.initial_level_low");
+        c.write_io(port, data);
+        kani::assert(bh::levels(&c.mixer.beeper) == (data & 0x10 != 0, data & 0x08 != 0), "c19.port.speaker_bit4_mic_bit3");
+        let odd: u16 = kani::any();
+        kani::assume(odd & 1 == 1);
+        c.write_io(odd, kani::any());
+        kani::assert(bh::levels(&c.mixer.beeper) == (data & 0x10 != 0, data & 0x08 != 0), "c19.port.other_ports_leave_level");
+        kani::cover!(data & 0x18 == 0x10, "speaker on, MIC off");
+    }
+
+    // @harness
+    // @prop C19
+    // @tier quick
+    // @features sound
+    // @timeout 900
+    // @fn ZXController::frame_pos; ZXMixer::sample_count_for_frame_fraction; ZXMixer::samples_per_frame; ZXController::create_mixer
+    // @sym machine, frame T-state 0..frame+63, step 1..16 T-states; sample rate fixed to 8000 Hz
+    // @assert the sample cursor is floor(rate/50 * T/frame) to within one sample (uniform spacing in emulated time), monotone, never beyond the frame, equal to floor(rate/50) once the frame is complete; it advances by at most one sample per 8 T-states (an edge lands within one sample of its port write)
+    // @bound sample rate 8000 Hz (the f64 division does not bit-blast with a symbolic rate; rates are enumerated: quick 8000/44100/48000/384000, thorough all 11)
+    #[kani::proof]
+    fn c19_cursor_8000() {
+        cursor_body(8000);
+    }
+
+    // @harness
+    // @prop C19
+    // @tier thorough
+    // @features sound
+    // @timeout 900
+    // @fn ZXController::frame_pos; ZXMixer::sample_count_for_frame_fraction; ZXMixer::samples_per_frame; ZXController::create_mixer
+    // @sym machine, frame T-state 0..frame+63, step 1..16 T-states; sample rate fixed to 11025 Hz
+    // @assert the sample cursor is floor(rate/50 * T/frame) to within one sample (uniform spacing in emulated time), monotone, never beyond the frame, equal to floor(rate/50) once the frame is complete; it advances by at most one sample per 8 T-states (an edge lands within one sample of its port write)
+    // @bound sample rate 11025 Hz (the f64 division does not bit-blast with a symbolic rate; rates are enumerated: quick 8000/44100/48000/384000, thorough all 11)
+    #[kani::proof]
+    fn c19_cursor_11025() {
+        cursor_body(11025);
+    }
+
+    // @harness
+    // @prop C19
+    // @tier thorough
+    // @features sound
+    // @timeout 900
+    // @fn ZXController::frame_pos; ZXMixer::sample_count_for_frame_fraction; ZXMixer::samples_per_frame; ZXController::create_mixer
+    // @sym machine, frame T-state 0..frame+63, step 1..16 T-states; sample rate fixed to 16000 Hz
+    // @assert the sample cursor is floor(rate/50 * T/frame) to within one sample (uniform spacing in emulated time), monotone, never beyond the frame, equal to floor(rate/50) once the frame is complete; it advances by at most one sample per 8 T-states (an edge lands within one sample of its port write)
+    // @bound sample rate 16000 Hz (the f64 division does not bit-blast with a symbolic rate; rates are enumerated: quick 8000/44100/48000/384000, thorough all 11)
+    #[kani::proof]
+    fn c19_cursor_16000() {
+        cursor_body(16000);
+    }
+
+    // @harness
+    // @prop C19
+    // @tier thorough
+    // @features sound
+    // @timeout 900
+    // @fn ZXController::frame_pos; ZXMixer::sample_count_for_frame_fraction; ZXMixer::samples_per_frame; ZXController::create_mixer
+    // @sym machine, frame T-state 0..frame+63, step 1..16 T-states; sample rate fixed to 22050 Hz
+    // @assert the sample cursor is floor(rate/50 * T/frame) to within one sample (uniform spacing in emulated time), monotone, never beyond the frame, equal to floor(rate/50) once the frame is complete; it advances by at most one sample per 8 T-states (an edge lands within one sample of its port write)
+    // @bound sample rate 22050 Hz (the f64 division does not bit-blast with a symbolic rate; rates are enumerated: quick 8000/44100/48000/384000, thorough all 11)
+    #[kani::proof]
+    fn c19_cursor_22050() {
+        cursor_body(22050);
+    }
+
+    // @harness
+    // @prop C19
+    // @tier thorough
+    // @features sound
+    // @timeout 900
+    // @fn ZXController::frame_pos; ZXMixer::sample_count_for_frame_fraction; ZXMixer::samples_per_frame; ZXController::create_mixer
+    // @sym machine, frame T-state 0..frame+63, step 1..16 T-states; sample rate fixed to 32000 Hz
+    // @assert the sample cursor is floor(rate/50 * T/frame) to within one sample (uniform spacing in emulated time), monotone, never beyond the frame, equal to floor(rate/50) once the frame is complete; it advances by at most one sample per 8 T-states (an edge lands within one sample of its port write)
+    // @bound sample rate 32000 Hz (the f64 division does not bit-blast with a symbolic rate; rates are enumerated: quick 8000/44100/48000/384000, thorough all 11)
+    #[kani::proof]
+    fn c19_cursor_32000() {
+        cursor_body(32000);
+    }
+
+    // @harness
+    // @prop C19
+    // @tier quick
+    // @features sound
+    // @timeout 900
+    // @fn ZXController::frame_pos; ZXMixer::sample_count_for_frame_fraction; ZXMixer::samples_per_frame; ZXController::create_mixer
+    // @sym machine, frame T-state 0..frame+63, step 1..16 T-states; sample rate fixed to 44100 Hz
+    // @assert the sample cursor is floor(rate/50 * T/frame) to within one sample (uniform spacing in emulated time), monotone, never beyond the frame, equal to floor(rate/50) once the frame is complete; it advances by at most one sample per 8 T-states (an edge lands within one sample of its port write)
+    // @bound sample rate 44100 Hz (the f64 division does not bit-blast with a symbolic rate; rates are enumerated: quick 8000/44100/48000/384000, thorough all 11)
+    #[kani::proof]
+    fn c19_cursor_44100() {
+        cursor_body(44100);
+    }
+
+    // @harness
+    // @prop C19
+    // @tier quick
+    // @features sound
+    // @timeout 900
+    // @fn ZXController::frame_pos; ZXMixer::sample_count_for_frame_fraction; ZXMixer::samples_per_frame; ZXController::create_mixer
+    // @sym machine, frame T-state 0..frame+63, step 1..16 T-states; sample rate fixed to 48000 Hz
+    // @assert the sample cursor is floor(rate/50 * T/frame) to within one sample (uniform spacing in emulated time), monotone, never beyond the frame, equal to floor(rate/50) once the frame is complete; it advances by at most one sample per 8 T-states (an edge lands within one sample of its port write)
+    // @bound sample rate 48000 Hz (the f64 division does not bit-blast with a symbolic rate; rates are enumerated: quick 8000/44100/48000/384000, thorough all 11)
+    #[kani::proof]
+    fn c19_cursor_48000() {
+        cursor_body(48000);
+    }
+
+    // @harness
+    // @prop C19
+    // @tier thorough
+    // @features sound
+    // @timeout 900
+    // @fn ZXController::frame_pos; ZXMixer::sample_count_for_frame_fraction; ZXMixer::samples_per_frame; ZXController::create_mixer
+    // @sym machine, frame T-state 0..frame+63, step 1..16 T-states; sample rate fixed to 88200 Hz
+    // @assert the sample cursor is floor(rate/50 * T/frame) to within one sample (uniform spacing in emulated time), monotone, never beyond the frame, equal to floor(rate/50) once the frame is complete; it advances by at most one sample per 8 T-states (an edge lands within one sample of its port write)
+    // @bound sample rate 88200 Hz (the f64 division does not bit-blast with a symbolic rate; rates are enumerated: quick 8000/44100/48000/384000, thorough all 11)
+    #[kani::proof]
+    fn c19_cursor_88200() {
+        cursor_body(88200);
+    }
+
+    // @harness
+    // @prop C19
+    // @tier thorough
+    // @features sound
+    // @timeout 900
+    // @fn ZXController::frame_pos; ZXMixer::sample_count_for_frame_fraction; ZXMixer::samples_per_frame; ZXController::create_mixer
+    // @sym machine, frame T-state 0..frame+63, step 1..16 T-states; sample rate fixed to 96000 Hz
+    // @assert the sample cursor is floor(rate/50 * T/frame) to within one sample (uniform spacing in emulated time), monotone, never beyond the frame, equal to floor(rate/50) once the frame is complete; it advances by at most one sample per 8 T-states (an edge lands within one sample of its port write)
+    // @bound sample rate 96000 Hz (the f64 division does not bit-blast with a symbolic rate; rates are enumerated: quick 8000/44100/48000/384000, thorough all 11)
+    #[kani::proof]
+    fn c19_cursor_96000() {
+        cursor_body(96000);
+    }
+
+    // @harness
+    // @prop C19
+    // @tier thorough
+    // @features sound
+    // @timeout 900
+    // @fn ZXController::frame_pos; ZXMixer::sample_count_for_frame_fraction; ZXMixer::samples_per_frame; ZXController::create_mixer
+    // @sym machine, frame T-state 0..frame+63, step 1..16 T-states; sample rate fixed to 192000 Hz
+    // @assert the sample cursor is floor(rate/50 * T/frame) to within one sample (uniform spacing in emulated time), monotone, never beyond the frame, equal to floor(rate/50) once the frame is complete; it advances by at most one sample per 8 T-states (an edge lands within one sample of its port write)
+    // @bound sample rate 192000 Hz (the f64 division does not bit-blast with a symbolic rate; rates are enumerated: quick 8000/44100/48000/384000, thorough all 11)
+    #[kani::proof]
+    fn c19_cursor_192000() {
+        cursor_body(192000);
+    }
+
+    // @harness
+    // @prop C19
+    // @tier quick
+    // @features sound
+    // @timeout 900
+    // @fn ZXController::frame_pos; ZXMixer::sample_count_for_frame_fraction; ZXMixer::samples_per_frame; ZXController::create_mixer
+    // @sym machine, frame T-state 0..frame+63, step 1..16 T-states; sample rate fixed to 384000 Hz
+    // @assert the sample cursor is floor(rate/50 * T/frame) to within one sample (uniform spacing in emulated time), monotone, never beyond the frame, equal to floor(rate/50) once the frame is complete; it advances by at most one sample per 8 T-states (an edge lands within one sample of its port write)
+    // @bound sample rate 384000 Hz (the f64 division does not bit-blast with a symbolic rate; rates are enumerated: quick 8000/44100/48000/384000, thorough all 11)
+    #[kani::proof]
+    fn c19_cursor_384000() {
+        cursor_body(384000);
+    }
+}
